@@ -364,6 +364,8 @@ pub struct SimPair {
     /// (tick number, endpoint, ahead), see `PairScenario::premature_acks`
     premature: Vec<(u32, usize, u32)>,
     frm_base: [u32; 2],
+    /// frame window base named by the latest uncorrupted ack frame handed to endpoint e
+    last_ack_frame_base: [Option<u32>; 2],
     pub premature_injected: u32,
 }
 
@@ -412,13 +414,14 @@ impl SimPair {
             chatter_stall_max_credit: None,
             premature: sc.premature_acks.iter().map(|(sel, e, ahead)| (crate::engine::pick_index(*sel, sc.ticks.len().max(1)) as u32, (*e % 2) as usize, (*ahead as u32).max(1))).collect(),
             frm_base: [sc.dirs[0].frm_base, sc.dirs[1].frm_base],
+            last_ack_frame_base: [None, None],
             premature_injected: 0,
         }
     }
 
     /// Hands endpoint `e` a forged ack frame without groups whose packet window base lies `ahead` beyond the next
-    /// packet id `e` will use (its frame window base is e's initial one: behind everything, so it cannot move the frame
-    /// window either). The frame is recorded like a frame of the peer that was handed over, so that the sender models
+    /// packet id `e` will use (its frame window base is the one of the latest genuine ack frame `e` was handed, or e's
+    /// initial one: it cannot move the frame window either). The frame is recorded like a frame of the peer that was handed over, so that the sender models
     /// see it; it is not something the peer emitted.
     pub fn inject_premature_ack(&mut self, e: usize, ahead: u32) -> bool {
         use uflow::verif::Serialize as _;
@@ -428,7 +431,7 @@ impl SimPair {
             return false;
         }
         let pb = next.wrapping_add(ahead) & PKT_MASK;
-        let f = Frame::AckFrame(uflow::verif::AckFrame { frame_window_base_id: self.frm_base[e], packet_window_base_id: pb, frame_acks: Vec::new() }).write();
+        let f = Frame::AckFrame(uflow::verif::AckFrame { frame_window_base_id: self.last_ack_frame_base[e].unwrap_or(self.frm_base[e]), packet_window_base_id: pb, frame_acks: Vec::new() }).write();
         let wire_idx = self.trace.wire[1 - e].len() as u32;
         let evs = self.next_ev();
         self.trace.wire[1 - e].push(WireRec { seq: evs, t_us: self.now_us, tick: self.tick_no, epoch: self.epoch[1 - e], bytes: f.clone(), fate: Fate::Deliver(0), fair: self.fair });
@@ -590,6 +593,11 @@ impl SimPair {
                         f.bytes = b;
                         self.acks_extended += 1;
                     }
+                }
+            }
+            if !f.corrupted && f.bytes.first() == Some(&12) {
+                if let Some(Frame::AckFrame(a)) = Frame::read(&f.bytes) {
+                    self.last_ack_frame_base[e] = Some(a.frame_window_base_id);
                 }
             }
             let accepted = self.handle_bytes(e, &f.bytes);
